@@ -23,6 +23,15 @@ def make_plan(prop, rng, idx, tier, variant="asan"):
         m = idx % 10
         if idx % 20 == 13:
             return hist.gen_sole_survivor(rng, "C13"), "sole-survivor"
+        if idx % 20 == 9 and variant != "vg":
+            # the CLI is one of the executions the property quantifies over
+            from . import cli
+            plan, cfg = cli.make_plan(rng, idx)
+            return plan, "cli"
+        if idx % 20 in (3, 16) and variant != "vg":
+            # libdw fails half-way: whatever was being built at that moment
+            # (a cache entry, a half-filled table) must not be kept for later
+            return hist.gen_history(rng, "C13", damaged=True), "damaged-file"
         if variant == "vg":
             # under memcheck: no LSan, no bombs at huge cost; short histories
             plan = hist.gen_history(rng, "C13", faults=(m >= 8), sweep=(4 <= m < 7))
@@ -68,6 +77,13 @@ def _make_c14(rng, idx):
     raise ValueError(prop)
 
 
+def cli_mode(prop):
+    """How a CLI run is judged: by the whole model (C19), by the run-time
+    failure clause only (C14), or by the sanitizers and the leak and
+    descriptor censuses only (C13)."""
+    return {"C19": False, "C13": "memory"}.get(prop, True)
+
+
 def is_cli(plan):
     return bool(plan.get("knobs", {}).get("cli"))
 
@@ -75,19 +91,19 @@ def is_cli(plan):
 def run(z, plan, prop):
     if prop == "C19" or is_cli(plan):
         from . import cli
-        return cli.simulate(z, plan, clause_only=(prop != "C19"))
+        return cli.simulate(z, plan, clause_only=cli_mode(prop))
     return E.simulate(z, plan, prop)
 
 
 def gate(z, plan, prop, klass, fp):
     if prop == "C19" or is_cli(plan):
         from . import cli
-        return cli.gate(z, plan, klass, fp, clause_only=(prop != "C19"))
+        return cli.gate(z, plan, klass, fp, clause_only=cli_mode(prop))
     return E.gate(z, plan, prop, klass, fp)
 
 
 def minimise(z, plan, prop, klass):
     if prop == "C19" or is_cli(plan):
         from . import cli
-        return cli.minimise(z, plan, klass, clause_only=(prop != "C19"))
+        return cli.minimise(z, plan, klass, clause_only=cli_mode(prop))
     return E.minimise(z, plan, prop, klass)
